@@ -64,19 +64,12 @@ def url_ok(out):
 
 
 def _r():
-    r = LaTeXRenderer.__new__(LaTeXRenderer)
-    r.packages = {}
-    from mistletoe.latex_renderer import verb_delimiters
-    r.verb_delimiters = verb_delimiters
-    r.footnotes = {}
-    r.render_map = {}
-    for name in ('Strong', 'Emphasis', 'InlineCode', 'RawText', 'Strikethrough', 'Image', 'Link', 'AutoLink',
-                 'EscapeSequence', 'Heading', 'Quote', 'Paragraph', 'List', 'ListItem', 'Table', 'TableRow',
-                 'TableCell', 'ThematicBreak', 'LineBreak', 'Document', 'Math'):
-        r.render_map[name] = getattr(r, r._cls_to_func(name))
-    r.render_map['SetextHeading'] = r.render_heading
-    r.render_map['CodeFence'] = r.render_block_code
-    r.render_map['BlockCode'] = r.render_block_code
+    """a LaTeXRenderer built by its real constructor (so that whatever __init__ sets up is there), with the
+    global token lists put back at once: the template lemmas call render methods on directly built tokens"""
+    from mistletoe import block_token as _bt, span_token as _st
+    r = LaTeXRenderer()
+    _bt.reset_tokens()
+    _st.reset_tokens()
     return r
 
 
